@@ -5,10 +5,12 @@ import (
 	"crypto/sha256"
 	"encoding/hex"
 	"encoding/json"
+	"fmt"
 	"io"
 	"math/rand"
 	"os"
 	"sort"
+	"strconv"
 	"strings"
 
 	putsvc "github.com/nspcc-dev/neofs-node/pkg/services/object/put"
@@ -208,8 +210,36 @@ func reconRecord(rule ecRule, data []byte, parts [][]byte, miss []int, from, to 
 	return rec
 }
 
-// multiRecord runs the real modifyECParentObject for several rules over one payload.
-func multiRecord(rules []ecRule, data []byte, chunks int) kit.M {
+// multiEval runs the real modifyECParentObject for several rules over one payload and examines EVERY rule's
+// parts AFTER all rules were encoded: equal lengths, announced hashes (parent header attribute) match the parts,
+// parts equal an independent encoding of a private copy, decoding with lost parts returns the payload.
+type multiRes struct {
+	err, attrOK, payloadSame bool
+	slack                    int // cap - len of the buffer retained by the target (spare capacity seen by the EC library)
+	per                      []kit.M
+}
+
+func lossPatterns(k, m int, all bool) [][]int {
+	t := k + m
+	if m == 0 {
+		return [][]int{{}}
+	}
+	if all && t <= 6 {
+		return subsets(t, m)
+	}
+	pats := [][]int{{}}
+	for i := 1; i <= t; i++ { // every single part
+		pats = append(pats, []int{i})
+	}
+	first, last := []int{}, []int{}
+	for i := 1; i <= m; i++ {
+		first = append(first, i)
+		last = append(last, t-m+i)
+	}
+	return append(pats, first, last)
+}
+
+func multiEval(rules []ecRule, data []byte, chunks int, allPatterns bool) multiRes {
 	var hdr object.Object
 	hdr.SetType(object.TypeRegular)
 	hdr.SetPayloadSize(uint64(len(data)))
@@ -226,52 +256,96 @@ func multiRecord(rules []ecRule, data []byte, chunks int) kit.M {
 	for off := 0; off < len(src); off += step {
 		rs = append(rs, bytes.NewReader(src[off:min(off+step, len(src))]))
 	}
-	rl := make([][2]int, len(rules))
-	for i := range rules {
-		rl[i] = [2]int{int(rules[i].DataPartNum), int(rules[i].ParityPartNum)}
-	}
-	rec := kit.M{"kind": "multi", "rules": rl, "len": len(data)}
 	enc, retained, err := putsvc.VerifEncodeECParent(rules, &hdr, io.MultiReader(rs...))
-	rec["err"] = err != nil
-	per := make([]kit.M, 0, len(rules))
+	res := multiRes{err: err != nil, slack: cap(retained) - len(retained)}
+	var announced []string
+	for _, a := range hdr.Attributes() {
+		if a.Key() == ecAttrPartsHashes {
+			announced = strings.Split(a.Value(), ",")
+		}
+	}
 	var wantHashes []string
+	pos := 0
 	for i := range rules {
+		k, m := int(rules[i].DataPartNum), int(rules[i].ParityPartNum)
 		freshParts, freshHashes, ferr := verifexport.ECEncode(rules[i], bytes.Clone(data))
 		kit.Must(ferr)
 		wantHashes = append(wantHashes, freshHashes...)
-		p := kit.M{"fresh": false, "decOK": false}
+		p := kit.M{"fresh": false, "decOK": false, "lensEq": false, "hashOK": false}
 		if err == nil && i < len(enc) && len(enc[i]) == len(freshParts) {
-			same := true
+			same, lensEq, hashOK := true, true, pos+len(enc[i]) <= len(announced)
 			for j := range freshParts {
 				if !bytes.Equal(enc[i][j], freshParts[j]) {
 					same = false
 				}
-			}
-			p["fresh"] = same
-			if len(data) > 0 {
-				// erase the first m parts and decode from what modifyECParentObject produced
-				var miss []int
-				for j := 1; j <= int(rules[i].ParityPartNum); j++ {
-					miss = append(miss, j)
+				if len(enc[i][j]) != len(enc[i][0]) {
+					lensEq = false
 				}
-				got, derr := verifexport.ECDecode(rules[i], uint64(len(data)), erase(enc[i], miss))
-				p["decOK"] = derr == nil && bytes.Equal(got, data)
-			} else {
-				p["decOK"] = true
+				if hashOK {
+					h := sha256.Sum256(enc[i][j])
+					hashOK = hex.EncodeToString(h[:]) == announced[pos+j]
+				}
+			}
+			p["fresh"], p["lensEq"], p["hashOK"] = same, lensEq, hashOK
+			decOK := true
+			if len(data) > 0 {
+				for _, miss := range lossPatterns(k, m, allPatterns) {
+					got, derr := verifexport.ECDecode(rules[i], uint64(len(data)), erase(enc[i], miss))
+					if derr != nil || !bytes.Equal(got, data) {
+						decOK = false
+					}
+				}
+			}
+			p["decOK"] = decOK
+		}
+		pos += k + m
+		res.per = append(res.per, p)
+	}
+	res.attrOK = len(announced) == len(wantHashes) && strings.Join(announced, ",") == strings.Join(wantHashes, ",")
+	res.payloadSame = err == nil && bytes.Equal(retained, data)
+	return res
+}
+
+func rulePairs(rules []ecRule) [][2]int {
+	rl := make([][2]int, len(rules))
+	for i := range rules {
+		rl[i] = [2]int{int(rules[i].DataPartNum), int(rules[i].ParityPartNum)}
+	}
+	return rl
+}
+
+// multiRecord: one rule sequence, one payload
+func multiRecord(rules []ecRule, data []byte, chunks int) kit.M {
+	res := multiEval(rules, data, chunks, false)
+	return kit.M{"kind": "multi", "rules": rulePairs(rules), "len": len(data), "err": res.err, "per": res.per,
+		"attrOK": res.attrOK, "payloadSame": res.payloadSame, "slack": res.slack}
+}
+
+// mseqRecord: one ORDERED rule sequence x many payload lengths. bad[i] = 1-based indexes of the rules for which
+// any of the per-rule checks fails at lens[i]; gen[i] = general failure (error, attribute, payload buffer changed).
+func mseqRecord(r *rand.Rand, rules []ecRule, lens []int, allPatterns bool) kit.M {
+	bad := make([][]int, len(lens))
+	gen := make([]bool, len(lens))
+	slack := make([]int, len(lens))
+	why := ""
+	for i, n := range lens {
+		res := multiEval(rules, payloadOf(r, n), 1+i%2, allPatterns)
+		bad[i] = []int{}
+		for j, p := range res.per {
+			if !(p["fresh"].(bool) && p["lensEq"].(bool) && p["hashOK"].(bool) && p["decOK"].(bool)) {
+				bad[i] = append(bad[i], j+1)
+				if why == "" {
+					why = "len=" + strconv.Itoa(n) + " rule#" + strconv.Itoa(j) + " " + fmt.Sprint(p)
+				}
 			}
 		}
-		per = append(per, p)
-	}
-	rec["per"] = per
-	attrOK := false
-	for _, a := range hdr.Attributes() {
-		if a.Key() == ecAttrPartsHashes {
-			attrOK = a.Value() == strings.Join(wantHashes, ",")
+		gen[i] = res.err || !res.attrOK || !res.payloadSame
+		if gen[i] && why == "" {
+			why = "len=" + strconv.Itoa(n) + fmt.Sprintf(" err=%v attrOK=%v payloadSame=%v", res.err, res.attrOK, res.payloadSame)
 		}
+		slack[i] = res.slack
 	}
-	rec["attrOK"] = attrOK
-	rec["payloadSame"] = err == nil && bytes.Equal(retained, data)
-	return rec
+	return kit.M{"kind": "mseq", "rules": rulePairs(rules), "lens": lens, "slack": slack, "bad": bad, "gen": gen, "why": why}
 }
 
 func allRules() []ecRule {
@@ -371,6 +445,41 @@ func eccode(args []string) {
 			n = r.Intn(ecMaxLen + 1)
 		}
 		w.Emit(multiRecord(rs, payloadOf(r, n), 1+r.Intn(3)))
+	}
+	// systematic: ALL ordered pairs of rules (and some triples) x EVERY small length. Spare capacity handed to the EC
+	// library matters only when a later rule's shards fit into it, i.e. for tiny payloads and a particular ORDER.
+	var pairRules []ecRule
+	for _, rl := range rules {
+		if thorough || rl.ParityPartNum <= 2 {
+			pairRules = append(pairRules, rl)
+		}
+	}
+	var lens []int
+	maxSmall := 64
+	if thorough {
+		maxSmall = 256
+	}
+	for n := 0; n <= maxSmall; n++ {
+		lens = append(lens, n)
+	}
+	if thorough {
+		lens = append(lens, 511, 512, 513, 1023, 1024, 1025, 4095, 4096)
+	}
+	for _, a := range pairRules {
+		for _, b := range pairRules {
+			w.Emit(mseqRecord(r, []ecRule{a, b}, lens, thorough))
+		}
+	}
+	nTriples := 80
+	if thorough {
+		nTriples = 600
+	}
+	for i := 0; i < nTriples; i++ {
+		t3 := []ecRule{rules[r.Intn(len(rules))], rules[r.Intn(len(rules))], rules[r.Intn(len(rules))]}
+		if i%2 == 0 { // descending data counts: later rules have shorter... longer parts, the order that can alias
+			sort.Slice(t3, func(x, y int) bool { return t3[x].DataPartNum > t3[y].DataPartNum })
+		}
+		w.Emit(mseqRecord(r, t3, lens, false))
 	}
 	w.Close()
 }
